@@ -474,7 +474,7 @@ class C13(ValueTextMixin, Check):
         self.salt = getattr(self, 'salt', '')
         saved_default = self.P._defaultProfiles
         try:
-            for name in ('run_corpus', 'corr_acc', 'corr_vwp', 'corr_props_and_sheets', 'corr_value_text',
+            for name in ('run_corpus', 'corr_acc', 'corr_vwp', 'corr_props_and_sheets', 'corr_value_text', 'oracle_vtab_direct',
                          'oracle_numbers_prefs',
                          'oracle_moved_properties', 'oracle_spelling_roundtrip_paths', 'oracle_grammar',
                          'oracle_annotates', 'corr_valid_only', 'oracle_unicode_fold'):
